@@ -46,7 +46,7 @@ CARDS = {
     "lo-pol": dict(xgrid=[0.1, 0.5, 1.0], mugrid=[[6.0, 5]], polarized=True),
     "nlo-1": dict(xgrid=[0.1, 0.5, 1.0], mugrid=[[5.0, 5]], order=[2, 0]),
 }
-DESTS = ["none", "rel-existing", "abs-existing", "rel-missing", "abs-missing"]
+DESTS = ["none", "rel-existing", "abs-existing", "rel-missing", "abs-missing", "rel-nested-missing", "abs-nested-missing"]
 
 
 def _launch(case, args, cwd):
@@ -154,12 +154,15 @@ def _example(case, base, res):
         target = cwd / "runcards"
     else:
         rel = dest.startswith("rel")
+        nested = "nested" in dest  # the parents of the destination do not exist either
         target = (cwd / "mycards") if rel else (base / "elsewhere" / "cards")
+        if nested:
+            target = (cwd / "out" / "deep" / "mycards") if rel else (base / "elsewhere2" / "a" / "b" / "cards")
         if dest.endswith("existing"):
             target.mkdir(parents=True)
-        elif not rel:
+        elif not rel and not nested:
             target.parent.mkdir(parents=True)
-        args += ["-d", "mycards" if rel else str(target)]
+        args += ["-d", ("out/deep/mycards" if nested else "mycards") if rel else str(target)]
     existed = target.exists()
     rc, out, err = _launch(case, args, cwd)
     cls = _exc_class(err) if rc != 0 else "-"
@@ -311,7 +314,7 @@ def run(ctx):
     ctx.run_cases(cases, evaluate, chunksize=1)
     ctx.rule = (
         "complete product {./runcards present, absent} x destination {none, relative existing, absolute existing, relative "
-        "missing, absolute missing} (thorough: x {console script, python -c entry point}) for `eko runcards example`; "
+        "missing, absolute missing, relative/absolute missing together with its parents} (thorough: x {console script, python -c entry point}) for `eko runcards example`; "
         "{1, 2, 3 arguments} x cards {LO one target across a threshold, LO two targets, LO truncated; thorough: + LO polarised, NLO} x "
         "{relative, absolute paths} (quick: absolute only for the first card) for `eko run`; each in its own subprocess and "
         "fresh working directory; non-trivial = cards written and re-loaded / a non-identity operator compared with the library"
